@@ -8,7 +8,7 @@ verus! {
 
 //@include prelude/std_specs_arith.rs
 
-/*@fragment file=src/subdevice_group/mod.rs impl="impl<const MAX_SUBDEVICES: usize, const MAX_PDI: usize, R: RawRwLock, S, DC> SubDeviceGroup<MAX_SUBDEVICES, MAX_PDI, R, S, DC>" fn=configure_dc_sync from="let start_time = (system_time + first_pulse_delay)" to="* sync0_period;" name=dc_start_time sig="system_time: u64, first_pulse_delay: u64, sync0_period: u64 -> (r: u64)" tail="start_time" props=C18
+/*@fragment file=src/subdevice_group/mod.rs impl="impl<const MAX_SUBDEVICES: usize, const MAX_PDI: usize, R: RawRwLock, S, DC> SubDeviceGroup<MAX_SUBDEVICES, MAX_PDI, R, S, DC>" fn=configure_dc_sync from="let start_time =" to="@stmt_end" name=dc_start_time sig="system_time: u64, first_pulse_delay: u64, sync0_period: u64 -> (r: u64)" tail="start_time" props=C18
     requires
         1 <= sync0_period <= u32::MAX,
         first_pulse_delay <= u32::MAX,
@@ -29,7 +29,7 @@ verus! {
     }
 @*/
 
-/*@fragment file=src/subdevice_group/mod.rs impl="impl<const MAX_SUBDEVICES: usize, const MAX_PDI: usize, R: RawRwLock, S> SubDeviceGroup<MAX_SUBDEVICES, MAX_PDI, R, S, HasDc>" fn=tx_rx_dc from="let cycle_start_offset = time" to="+ self.dc_conf.sync0_shift;" name=dc_cycle_arith sig="time: u64, sync0_period: u64, sync0_shift: u64 -> (r: (u64, u64))" tail="(cycle_start_offset, time_to_next_iter)" subst="self.dc_conf.sync0_period=>sync0_period@@self.dc_conf.sync0_shift=>sync0_shift" props=C18
+/*@fragment file=src/subdevice_group/mod.rs impl="impl<const MAX_SUBDEVICES: usize, const MAX_PDI: usize, R: RawRwLock, S> SubDeviceGroup<MAX_SUBDEVICES, MAX_PDI, R, S, HasDc>" fn=tx_rx_dc from="let cycle_start_offset =" to="@stmt_end 2" name=dc_cycle_arith sig="time: u64, sync0_period: u64, sync0_shift: u64 -> (r: (u64, u64))" tail="(cycle_start_offset, time_to_next_iter)" subst="self.dc_conf.sync0_period=>sync0_period@@self.dc_conf.sync0_shift=>sync0_shift" props=C18
     requires
         1 <= sync0_period <= u32::MAX,
         sync0_shift <= 0x2_0000_0000,
